@@ -1203,7 +1203,7 @@ func (vc *VC) loopCommon(st *State, lc loopCtx, atHead func(s *State), cond func
 		case o.kind == oNormal || (o.kind == oContinue && (o.label == "" || o.label == lc.label)):
 			post(o.st)
 			s := o.st
-			if vc.oblCount[vc.fname+"#vacuity."+fmt.Sprintf("loop%d.bodyend", lc.ord)] < 2 {
+			if vc.oblCount[vc.fname+"#vacuity."+fmt.Sprintf("loop%d.bodyend", lc.ord)] < 8 {
 				vc.vacuity(s, fmt.Sprintf("loop%d.bodyend", lc.ord), lc.pos)
 			}
 			if atHead != nil {
